@@ -109,8 +109,16 @@ where
         let num_restart_points = u32::decode_fixed(&raw_data[num_restart_points_offset..]);
 
         // The array of restart points is right before the number of restart points when serialized.
-        let restart_offset =
-            raw_data.len() - (1 + (num_restart_points as usize)) * SIZE_OF_U32_BYTES;
+        // The count may come from bytes that are not a block at all (e.g. a damaged footer that
+        // names another part of the file), so check it against the size of the buffer.
+        let restart_array_size = (1 + (num_restart_points as usize)) * SIZE_OF_U32_BYTES;
+        if restart_array_size > raw_data.len() {
+            return Err(ReadError::FailedToParse(
+                "Failed to parse restart points. There are more than fit in the block."
+                    .to_string(),
+            ));
+        }
+        let restart_offset = raw_data.len() - restart_array_size;
         let restart_point_offsets = BlockReader::<K>::deserialize_restart_offsets(
             &raw_data[restart_offset..(raw_data.len() - SIZE_OF_U32_BYTES)],
             num_restart_points,
